@@ -283,6 +283,11 @@ impl Report {
     }
     /// require a coverage floor; failing one makes the run inconclusive (never a violation)
     pub fn floor(&mut self, what: &str, have: u64, need: u64) {
+        // sharded sanitizer lanes run a fraction of the workload per process: floors are the
+        // primary lane's business
+        if std::env::var("VERIF_NOFLOOR").is_ok() {
+            return;
+        }
         if have < need {
             self.inconclusive(format!("coverage floor not reached: {what}: {have} < {need}"));
         }
